@@ -152,6 +152,14 @@ func zzShape() int {
 	return vf.Choose("shape", 7)
 }
 
+func zzC12bSymShape(k int) { zzSymbolicNumbers = true; zzShapeFixed = k; zzC12bHostileFrames() }
+func zzC12bSym0()           { zzC12bSymShape(0) }
+func zzC12bSym1()           { zzC12bSymShape(1) }
+func zzC12bSym2()           { zzC12bSymShape(2) }
+func zzC12bSym3()           { zzC12bSymShape(3) }
+func zzC12bSym4()           { zzC12bSymShape(4) }
+func zzC12bSym5()           { zzC12bSymShape(5) }
+func zzC12bSym6()           { zzC12bSymShape(6) }
 func zzC12bShape1() { zzShapeFixed = 1; zzC12bHostileFrames() }
 func zzC12bShape4() { zzShapeFixed = 4; zzC12bHostileFrames() }
 func zzC12bShape6() { zzShapeFixed = 6; zzC12bHostileFrames() }
